@@ -618,25 +618,38 @@ func tripleCoq(p pac.Proxy) string {
 	return fmt.Sprintf("(%s, %s, %s)", coqfmt.Str(p.Mode.String()), coqfmt.Str(p.Host), coqfmt.Str(p.Port))
 }
 
-func observeP(s string) string {
+type pobs struct {
+	Text  string   `json:"text"`
+	First []string `json:"first"` // mode, host, port; nil = error
+	URL   string   `json:"url"`   // "" = nil
+	All   []string `json:"all"`   // "MODE host port" per entry; nil = error
+	AllOK bool     `json:"all_ok"`
+}
+
+func observeP(s string) (string, pobs) {
+	o := pobs{Text: s}
 	first, err := pac.Proxies(s).First()
 	firstS, urlS := "None", "None"
 	if err == nil {
 		firstS = "(Some " + tripleCoq(first) + ")"
+		o.First = []string{first.Mode.String(), first.Host, first.Port}
 		if u := first.URL(); u != nil {
 			urlS = fmt.Sprintf("(Some (%s, %s))", coqfmt.Str(u.Scheme), coqfmt.Str(u.Host))
+			o.URL = u.Scheme + "://" + u.Host
 		}
 	}
 	all, err := pac.Proxies(s).All()
 	allS := "None"
 	if err == nil {
+		o.AllOK = true
 		parts := make([]string, len(all))
 		for i, p := range all {
 			parts[i] = tripleCoq(p)
+			o.All = append(o.All, p.Mode.String()+" "+p.Host+" "+p.Port)
 		}
 		allS = "(Some " + coqfmt.List("triple", parts) + ")"
 	}
-	return fmt.Sprintf("{| pc_text := %s; pc_first := %s; pc_first_url := %s; pc_all := %s |}", coqfmt.Str(s), firstS, urlS, allS)
+	return fmt.Sprintf("{| pc_text := %s; pc_first := %s; pc_first_url := %s; pc_all := %s |}", coqfmt.Str(s), firstS, urlS, allS), o
 }
 
 var kwPool = []string{"PROXY", "HTTP", "HTTPS", "SOCKS", "SOCKS4", "SOCKS5", "DIRECT", "PROXY", "PROXY", "proxy", "Proxy", "FOO", "PROXYY", "SOCKS6", "", "HTTPS2"}
@@ -876,6 +889,7 @@ func main() {
 	tier := flag.String("tier", "quick", "quick|thorough")
 	out := flag.String("out", "", "output directory")
 	replay := flag.String("replay", "", "replay file (JSON: kind=eval|sort|parse|ip)")
+	only := flag.String("only", "", "pool: run only the goroutines-through-the-pool stream (binary built with -race)")
 	flag.Parse()
 	if err := os.MkdirAll(*out, 0o755); err != nil {
 		panic(err)
@@ -919,7 +933,8 @@ func main() {
 			c := SCase{rp.ECase.Env, rp.Input}
 			m.Shards = writeStream(*out, "scases", 250, []string{observeS(c)}, []any{c})
 		case "parse":
-			m.Shards = writeStream(*out, "pcases", 250, []string{observeP(rp.Text)}, []any{map[string]string{"text": rp.Text}})
+			cs, o := observeP(rp.Text)
+			m.Shards = writeStream(*out, "pcases", 250, []string{cs}, []any{o})
 		case "ip":
 			m.Shards = writeStream(*out, "ipcases", 250, []string{observeIP(rp.Text)}, []any{map[string]string{"text": rp.Text}})
 		default:
@@ -935,6 +950,11 @@ func main() {
 	if *tier == "thorough" {
 		nE, nS, nP, nIP = 30000, 4000, 15000, 15000
 		poolScripts, poolG, poolPer = 40, 64, 100
+	}
+	if *only == "pool" {
+		m.Pool = poolRun(r, poolScripts, poolG, poolPer)
+		writeMeta(*out, m)
+		return
 	}
 
 	// ---- stream 1: scripts through the resolver
@@ -1002,15 +1022,16 @@ func main() {
 	for _, s := range []string{"", "DIRECT", " DIRECT ", "PROXY a:1", "PROXY  a:1", "proxy a:1", "FOO a:1", "PROXY a", "PROXY a:", "PROXY :1", "PROXY a:b",
 		"PROXY a:99999", "PROXY [::1]:80", "PROXY ::1:80", "HTTPS h:443", "SOCKS5 h:1", "DIRECT a:1", "PROXY a:1 x", "PROXY\ta:1", ";PROXY a:1", "PROXY a:1;",
 		"PROXY a:1;bogus", "PROXY w3proxy.netscape.com:8080; PROXY mozilla.netscape.com:8081; DIRECT", "SOCKS socks:1080; SOCKS4 socks4:1080; SOCKS5 socks5:1080"} {
-		pc, pj = append(pc, observeP(s)), append(pj, map[string]string{"text": s})
+		cs, o := observeP(s)
+		pc, pj = append(pc, cs), append(pj, o)
 	}
 	for len(pc) < nP {
-		s := genResultList(r)
-		pc, pj = append(pc, observeP(s)), append(pj, map[string]string{"text": s})
+		cs, o := observeP(genResultList(r))
+		pc, pj = append(pc, cs), append(pj, o)
 	}
 	m.Counts["result_lists"] = len(pc)
 	m.Shards = append(m.Shards, writeStream(*out, "pcases", m.ShardSize, pc, pj)...)
-	m.SamplesP = []string{pj[len(pj)-1].(map[string]string)["text"], pj[len(pj)/2].(map[string]string)["text"]}
+	m.SamplesP = []string{pj[len(pj)-1].(pobs).Text, pj[len(pj)/2].(pobs).Text}
 
 	// ---- stream 4: dotted-quad readers against net.ParseIP / ParseCIDR
 	var ic []string
